@@ -607,7 +607,7 @@ fn worker_layout(seed: u64, base: u64, from: u64, n: u64) {
     let mut drv = Driver::spawn().expect("driver");
     let mut rep = Report::default();
     let mut seen = BTreeSet::new();
-    start_watchdog(6);
+    start_watchdog(10);
     for idx in from..from + n {
         println!("START {idx}");
         case_begins();
